@@ -208,7 +208,16 @@ for _k, _v in ADDED6.items():
     CLAIMED[_k]['text'] += ' Round 5: ' + _v
 
 ADDED7 = {
- 'C01': 'R14: writes that create_track / update() make only under a condition over snapshot fields store no field the condition ignores, unless the condition is proved always true (a list padded to a positive minimum by its conversion helper) or the field has an unconditional location.',
+ 'C01': 'R14: writes that create_track / update() make only under a condition over snapshot fields store no field the condition ignores, unless the condition is proved always true (a list padded to a positive minimum by its conversion helper) or the field has an unconditional location; R15: the fixed-width primitives are exact (L1 of C02: byte placement, halves by shifts 0 and 32, the unshifted half zero-extended); R16: the compressor emits one complete stream for every payload size (S6 of C03); R17: no conversion depends on the time zone, locale or environment of the process.',
+ 'C02': 'L1 sees through std::to_integer and rejects a sign-extended low half; L9: the decompressor returns exactly the bytes inflate() produced (result sized from the stream counters or a mismatch rejected).',
+ 'C03': 'S10 = L1 of C02; S11 = L9 of C02; S12: no (signed) char read through a pointer is widened without an unsigned 8-bit step.',
+ 'C04': 'P5 = L9 of C02 (an over-stated length prefix must not grow a zero tail that is kept as trailing data); P6 = L1 of C02.',
+ 'C05': 'D7: a pointer or iterator taken from a growable container and kept in a local or a struct member (strm.next_out) is not used after an operation that may reallocate the container unless taken again (structured path analysis, loop bodies twice). A violation now stands when another rule of the check is undecided (exit 1, not 2).',
+ 'C06': 'G8: handle, implementation and table classes hold no copy of a stored value (N1 of C10); G9 = L1 of C02.',
+ 'C08': 'K10: transaction guard shape (BEGIN / COMMIT then flag / ROLLBACK unless committed).',
+ 'C11': 'W14: transaction guard shape; W15: every compressed blob stored is one complete deflate stream (S6 of C03).',
+ 'C17': 'V11: the validator call in every verify() entry is unconditional with no return statement before it, and the context objects hold no memory of an earlier verification (N1 of C10).',
+ 'C18': 'B14: transaction guard shape; B15: bytes of a blob are read unsigned; B16: no time-zone / locale / environment dependent C routine (mktime, localtime, strtod, getenv ...) in the repository.',
 }
 for _k, _v in ADDED7.items():
     CLAIMED[_k]['text'] += ' Round 6: ' + _v
